@@ -19,7 +19,7 @@ import (
 func init() {
 	core.Register(&core.Simple{
 		Id: "C09", Lvl: "exploration", Quick: 480, Thorough: 16000, PerBatch: 160, Width: 160, Timeout: 2400,
-		RuleText: "each case uploads one generated file (sizes 0..200 KiB, thorough up to 8 MiB; ASCII and Mac-Roman names; with/without resource fork; preserve-forks on/off) through a chain of 0-4 connection cuts (EOF or read error) followed by resume attempts until completion; cut offsets sweep every byte of the preamble+flattened header region across the cases of a run (case index modulo region length) and sample the data and resource-fork regions and hit every structural boundary (end of preamble, FILP header, INFO header, info fork, DATA header, data, resource-fork header) exactly and at +-1; after every cut the final name must be absent and the partial file equal to the data prefix delivered, the resume offset in field 203 must equal the partial's size, the completed file must equal the original and a later download must return it. Other modes: upload onto an existing name (refused, untouched), a stale reference number after the name was taken, and a cut inside the resume branch of a folder upload. distinct = (mode, first cut region, number of cuts, size class, preserve flag); non-trivial = at least one cut or a refusal mode",
+		RuleText: "each case uploads one generated file (sizes 0..200 KiB, thorough up to 8 MiB; ASCII and Mac-Roman names; with/without resource fork; preserve-forks on/off) through a chain of 0-4 connection cuts (EOF or read error) followed by resume attempts until completion; cut offsets sweep every byte of the preamble+flattened header region across the cases of a run (case index modulo region length) and sample the data and resource-fork regions and hit every structural boundary (end of preamble, FILP header, INFO header, info fork, DATA header, data, resource-fork header) exactly and at +-1; after every cut the final name must be absent and the partial file equal to the data prefix delivered, the resume offset in field 203 must equal the partial's size, the completed file must equal the original and a later download must return it; after a quarter of the cuts another session attempts a resume with a damaged header (information fork shorter than any real one), which must neither publish nor change the partial. Other modes: upload onto an existing name (refused, untouched), a stale reference number after the name was taken, and a cut inside the resume branch of a folder upload. distinct = (mode, first cut region, number of cuts, size class, preserve flag); non-trivial = at least one cut or a refusal mode",
 		Case:     runCase,
 	})
 }
@@ -159,6 +159,7 @@ func runCase(c *core.Case) {
 		nCuts = 1 + c.R.Intn(3)
 	}
 	have := 0 // data bytes the partial file must hold
+	var other *refclient.Client
 	firstRegion := "none"
 	var trail []string
 	for attempt := 0; ; attempt++ {
@@ -275,6 +276,42 @@ func runCase(c *core.Case) {
 		if p := readOrNil(partial); !bytes.Equal(p, data[:have]) {
 			c.Fail("C09/cut/partial-differs", "after a cut at stream offset %d (%s): partial file holds %d bytes, the client delivered the first %d data bytes (equal prefix: %v); trail %v", cut, reg, len(p), have, bytes.HasPrefix(data, p), trail)
 			return
+		}
+		if have > 0 && have < len(data) && r.Chance(1, 4) {
+			// a resume attempt from another session that goes wrong in the header: the flattened-file header it sends
+			// carries an information fork shorter than any real one, then its connection ends. Whatever the server makes
+			// of that, the partial must not appear under the final name and must keep the bytes received so far.
+			if other == nil {
+				other, _ = refclient.LoginAs(srv, "10.9.2.1:1", "admin", "", "Other")
+			}
+			if other != nil {
+				if u2 := xfer.RequestUpload(other, name, path, size, true); u2.OK {
+					short := r.Intn(72)
+					bad := append(rc.Preamble(u2.Ref, size), rc.FlatHeader(rc.InfoFork{Name: name}, len(data)-have, 2)[:24]...)
+					bad = append(bad, rc.ForkHeader("INFO", short)...)
+					bad = append(bad, r.Bytes(short)...)
+					t2 := refclient.OpenTransfer(srv, fmt.Sprintf("10.9.2.1:%d", 100+attempt))
+					t2.Conn.Send(bad[:16])
+					t2.Conn.Send(bad[16:])
+					t2.Conn.CloseWrite()
+					select {
+					case <-t2.Conn.Done:
+					case <-time.After(xfer.TransferWatchdog):
+						c.Unsure("handler did not return after a damaged resume")
+						return
+					}
+					c.Count("damaged_resume_attempts_by_another_session", 1)
+					trail = append(trail, fmt.Sprintf("damaged resume by another session (info fork of %d bytes)", short))
+					if exists(final) {
+						c.Fail("C09/damaged-resume/final-name-present", "after another session's resume attempt with a damaged header (information fork of %d bytes) the final name %q exists with %d bytes although only %d of %d data bytes were ever received; trail %v", short, name, len(readOrNil(final)), have, len(data), trail)
+						return
+					}
+					if p := readOrNil(partial); !bytes.Equal(p, data[:have]) {
+						c.Fail("C09/damaged-resume/partial-differs", "after another session's resume attempt with a damaged header the partial file holds %d bytes, %d had been received; trail %v", len(p), have, trail)
+						return
+					}
+				}
+			}
 		}
 	}
 	c.Describe(fmt.Sprintf("cuts/%s/n%d/%s/preserve=%v/rsrc=%v", firstRegion, len(trail), sizeClass(size), preserve, rsrc != nil),
